@@ -12,7 +12,8 @@ Cases are Rust *declarations* that have to be compiled, so this property has its
 Encoding of a declaration (all decimal integers):
   [M, F, G, NR, (code,arg)*NR, NV, (nf, f*nf)*NV, NU, u*NU]
   M  macro       0 #[derive(Align1)]  1 #[zero_copy]  2 #[zero_copy(skip_packed)]  3 #[zero_copy(pod)]
-                 4 #[zero_copy(pod, skip_packed)]  5 #[unsized_type(skip_idl)]
+                 4 #[zero_copy(pod, skip_packed)]  5 #[unsized_type(skip_idl)]  6 #[unsized_type(skip_idl, skip_phantom_generics)]
+                 (6 is sent to the Coq model as 5: the marker is a zero-sized field without bit patterns)
   F  form        0 struct with named fields  1 tuple struct  2 enum  3 union
   G  generic     0 not generic; k>0: one type parameter T, instantiated with field type k-1 where it is used
   repr items     (0,0) start a new #[repr(..)] attribute  (1,0) C  (2,0) transparent  (3,k) integer repr k
@@ -80,7 +81,10 @@ UFIELDS = {
 }
 INT_REPR = ["u8", "i8", "u16", "i16", "u32", "i32", "u64", "i64"]
 MACROS = {0: "#[derive(Align1)]", 1: "#[zero_copy]", 2: "#[zero_copy(skip_packed)]", 3: "#[zero_copy(pod)]",
-          4: "#[zero_copy(pod, skip_packed)]", 5: "#[unsized_type(skip_idl)]"}
+          4: "#[zero_copy(pod, skip_packed)]", 5: "#[unsized_type(skip_idl)]",
+          # generic unsized types WITHOUT the leading PhantomData marker: the sized part's CheckedBitPattern impl is written by
+          # the macro over the real fields only (every type parameter must then be used by a sized field)
+          6: "#[unsized_type(skip_idl, skip_phantom_generics)]"}
 
 RULE = ("declarations drawn from the grammar: macro {derive(Align1), zero_copy, zero_copy(skip_packed), zero_copy(pod), "
         "zero_copy(pod, skip_packed), unsized_type} x form {struct, tuple struct, unit-only / data enum, union, generic with "
@@ -161,9 +165,9 @@ def dec(ints):
         return None
     if f != 2 and nv != 1:
         return None
-    if m == 5 and (f not in (0, 1) or nu < 1):
+    if m in (5, 6) and (f not in (0, 1) or nu < 1):
         return None
-    if m != 5 and nu:
+    if m not in (5, 6) and nu:
         return None
     return {"macro": m, "form": f, "generic": g, "reprs": reprs, "variants": variants, "ufields": uf}
 
@@ -209,7 +213,8 @@ def rust_source(ints):
              "#![allow(dead_code, unused_imports, unused_attributes, unused_variables, non_camel_case_types)]",
              "use star_frame::prelude::*;", "use core::mem::{align_of, size_of};", ""]
     if g:
-        bound = {0: "", 1: "", 2: "", 3: ": bytemuck::Pod", 4: ": bytemuck::Pod", 5: ": star_frame::unsize::impls::UnsizedGenerics"}[m]
+        bound = {0: "", 1: "", 2: "", 3: ": bytemuck::Pod", 4: ": bytemuck::Pod", 5: ": star_frame::unsize::impls::UnsizedGenerics",
+                 6: ": star_frame::unsize::impls::UnsizedGenerics"}[m]
         if f == 3:
             bound = ": Copy" if not bound else bound + " + Copy"
         gen_decl = "<T%s>" % bound
@@ -219,11 +224,11 @@ def rust_source(ints):
     lines.append(MACROS[m])
     lines += attrs
     name = "D"
-    if m == 5 and f == 1:
+    if m in (5, 6) and f == 1:
         parts = [fty(x) for x in d["variants"][0]]
         parts += [("#[unsized_start] " if i == 0 else "") + UFIELDS[u][0] for i, u in enumerate(d["ufields"])]
         lines.append("struct %s%s(%s);" % (name, gen_decl, ", ".join(parts)))
-    elif m == 5:
+    elif m in (5, 6):
         body = []
         for i, x in enumerate(d["variants"][0]):
             body.append("    s%d: %s," % (i, fty(x)))
@@ -252,7 +257,7 @@ def rust_source(ints):
     lines.append("")
     # ---- main: force the certification to be used, then print the observation
     main = []
-    if m == 5:
+    if m in (5, 6):
         has_sized = len(d["variants"][0]) > 0
         ty = "%sSized%s" % (name, gen_use)
         main.append("    let data = star_frame::unsize::TestUnderlyingData::new(64);")
@@ -678,7 +683,13 @@ def gen_cases(rng, tier):
             uf = [0, 0, 0]
             uf[pos] = z
             add(enc(5, 0, 0, [], [[0]], uf), "sys")
-    total = 360 if tier == "quick" else 5000
+    # generic unsized types without the phantom marker: T instantiated with a type that has invalid bit patterns, in
+    # every position of the sized part
+    for gcode in (1, 7, 8, 0):
+        for sized in ([T_CODE], [T_CODE, 0], [0, T_CODE], [T_CODE, T_CODE, 0], [1, T_CODE]):
+            add(enc(6, 0, gcode + 1, [], [sized], [0]), "sys")
+            add(enc(5, 0, gcode + 1, [], [sized], [0]), "sys")
+    total = 380 if tier == "quick" else 5000
     guard = 0
     while len(out) < total and guard < total * 20:
         guard += 1
@@ -732,7 +743,7 @@ def predicate(ints, obs):
         return "malformed observation %s" % (obs,)
     align, size, total, npat = obs[1], obs[2], obs[3], obs[4]
     table = obs[5:5 + npat]
-    if m == 5:
+    if m in (5, 6):
         sized = [inst(d, x) for x in d["variants"][0]]
         comps = ([sum(FIELDS[x][1] for x in sized) == 0] if sized else []) + [UFIELDS[u][1] for u in d["ufields"]]
         for i, z in enumerate(comps[:-1]):
@@ -878,11 +889,16 @@ def _proofs(broken):
     return thms
 
 
+def model_ints(ints):
+    """the Coq model has no notion of the phantom marker (a zero-sized field without bit patterns): macro 6 is macro 5"""
+    return [5] + list(ints[1:]) if ints and ints[0] == 6 else list(ints)
+
+
 def _run(cases, tag, prune=True):
     """cases [(name, ints)] -> (impl, errors, model)"""
     impl, errors, _ = build_and_run(cases, prune=prune)
     path = os.path.join(C.WORK, "%s_%s.cases" % (ID, tag))
-    C.write_cases(path, cases)
+    C.write_cases(path, [(n, model_ints(i)) for n, i in cases])
     model = C.run_model(GROUP, ENTRY, path)
     return impl, errors, model
 
@@ -948,7 +964,7 @@ def custom_main(args, tier, seed):
         len(cases), sum(1 for o in impl.values() if o[:1] == [1]), timer.s()))
     if model_ok:
         path = os.path.join(C.WORK, "%s_%s.cases" % (ID, tier))
-        C.write_cases(path, cases)
+        C.write_cases(path, [(n, model_ints(i)) for n, i in cases])
         try:
             model = C.run_model(GROUP, ENTRY, path)
         except C.CheckError as e:
